@@ -29,6 +29,9 @@ def run(ctx):
     r4(ctx)
     r5(ctx)
     r6(ctx)
+    ctx.rule("C20.R7", "K4", "(= C14.R2) an upgraded master resolves the same user/group: re-exec hands it the complete original environment (incl. GUNICORN_CMD_ARGS) plus only the hand-off keys")
+    from .c14 import exec_environment
+    exec_environment(ctx, "C20.R7")
 
 
 def r1(ctx):
